@@ -1109,3 +1109,103 @@ def live_in(fn):
                 live[b] = new
                 changed = True
     return live
+
+
+# ------------------------------------------------------------------ inlining of local helpers
+def _remap(node, loff, boff):
+    """deep copy of a JSON MIR fragment with every local shifted by loff (block targets are shifted by the caller)"""
+    if isinstance(node, dict):
+        out = {}
+        for k, v in node.items():
+            if k == 'l' and isinstance(v, int) and ('k' not in node or node.get('k') in ('live', 'dead')):
+                out[k] = v + loff
+            elif k == 'i' and isinstance(v, int) and set(node) == {'i'}:
+                out[k] = v + loff          # Index(local) projection
+            else:
+                out[k] = _remap(v, loff, boff)
+        return out
+    if isinstance(node, list):
+        return [_remap(v, loff, boff) for v in node]
+    return node
+
+
+def _shift_targets(t, boff):
+    k = t['k']
+    if k in ('goto', 'drop', 'call', 'assert', 'yield'):
+        if 't' in t:
+            t['t'] += boff
+        if 'dropt' in t:
+            t['dropt'] += boff
+    elif k == 'switch':
+        t['ts'] = [[v, tgt + boff] for v, tgt in t['ts']]
+        t['o'] += boff
+    elif k == 'asm':
+        t['ts'] = [x + boff for x in t.get('ts', [])]
+
+
+def inline_calls(prog, fn, want, depth=2, crates=None):
+    """A copy of `fn` in which every call of a plain workspace function selected by `want(callee Fn)` is replaced by the
+    callee's body (locals and blocks renumbered, arguments assigned, `return` turned into an assignment of the
+    destination and a jump to the call's successor).  Closures, coroutines, recursive calls and callees whose argument
+    count does not match are left alone.  Used by rules that must see through 'extract function' refactorings: the
+    facts a rule states about an unwinder / reader / builder hold for the function together with its private helpers."""
+    import copy
+    raw = copy.deepcopy(fn.raw)
+    names = crates or list(prog.crates.keys())
+    done = 0
+    inlined = []
+    for _round in range(depth):
+        changed = False
+        nblocks = len(raw['blocks'])
+        for b in range(nblocks):
+            blk = raw['blocks'][b]
+            t = blk['t']
+            if blk.get('cleanup') or t['k'] != 'call' or 'fn' not in t or 't' not in t or 'dest' not in t:
+                continue
+            g = None
+            path = strip_generics(t['fn'])
+            kr = t.get('krate')
+            for cn in ([kr] if kr else []) + [n for n in names if n != kr]:
+                try:
+                    c = prog.crate(cn)
+                except Exception:
+                    continue
+                g = c.fn(t['fn']) or c.fn(path)
+                if g is not None:
+                    break
+            if g is None or g.kind != 'fn' or g.path == fn.path or g.path in inlined and _round > 0 and False:
+                continue
+            if g.argc != len(t['args']) or not want(g):
+                continue
+            if any(bb['t']['k'] in ('yield', 'tailcall', 'coroutine_drop') for bb in g.raw['blocks']):
+                continue
+            loff = len(raw['locals'])
+            boff = len(raw['blocks'])
+            raw['locals'].extend(copy.deepcopy(g.raw['locals']))
+            for v in g.raw.get('vars', []):
+                nv = _remap(v, loff, 0)
+                raw.setdefault('vars', []).append(nv)
+            line = t.get('line')
+            for gb in g.raw['blocks']:
+                nb = _remap(gb, loff, boff)
+                nt = nb['t']
+                if nt['k'] == 'return' and not nb.get('cleanup'):
+                    nb['s'].append({'k': 'assign', 'lhs': copy.deepcopy(t['dest']), 'rv': {'k': 'use', 'x': {'m': {'l': loff}}}, 'line': nt.get('line', line), 'inl': g.path})
+                    nb['t'] = {'k': 'goto', 't': t['t'], 'line': nt.get('line', line)}
+                else:
+                    _shift_targets(nt, boff)
+                nb['inl'] = g.path
+                raw['blocks'].append(nb)
+            for i, a in enumerate(t['args']):
+                blk['s'].append({'k': 'assign', 'lhs': {'l': loff + 1 + i}, 'rv': {'k': 'use', 'x': copy.deepcopy(a)}, 'line': line, 'inl': g.path})
+            blk['t'] = {'k': 'goto', 't': boff, 'line': line}
+            inlined.append(g.path)
+            done += 1
+            changed = True
+        if not changed:
+            break
+    if not done:
+        return fn
+    nf = Fn(fn.crate, raw)
+    nf.inlined = inlined
+    return nf
